@@ -2451,3 +2451,72 @@ Proof.
   pose proof (HCI vid Hvid Vh Vr Hlt) as Eo.
   apply (sm_output_none _ Ho); rewrite Eo; assumption.
 Qed.
+
+(** * What is false of the model *)
+
+(** Witness (replayed header that is rejected): one validator, initial height 1.  A header of
+    height 1 is replayed with a commit proof that holds no precommit for it.  handleReplayedHeader
+    appends the header to the voting view's proposed headers BEFORE it checks the vote power, then
+    returns a validation error: the voting view changed, its version did not, no view was marked
+    as updated.  Both consumers stay on the old content although nothing is offered to them. *)
+Definition w_hd : hdr := mk_hdr [9] true 1 [] empty_cproof n_vs n_vs.
+Definition w_cp : cproof := mk_cproof 0 [1] [].
+Definition w_replay_ops : list mop := [MK (XOp (OpReplay w_hd w_cp)); MGRead].
+
+Theorem kernel_version_bumped_on_change_refuted :
+  exists s o s' res,
+    s = init_state 1 n_vs /\ step s o = Ok (s', res) /\ res = 2 /\
+    v_h (k_vot s') = v_h (k_vot s) /\ v_r (k_vot s') = v_r (k_vot s) /\ v_ver (k_vot s') = v_ver (k_vot s) /\
+    st_ev s' = st_ev s /\
+    List.length (v_phs (k_vot s)) = 0%nat /\ List.length (v_phs (k_vot s')) = 1%nat.
+Proof.
+  eexists. exists (OpReplay w_hd w_cp). eexists. eexists. split; [reflexivity|]. split; [vm_compute; reflexivity|].
+  repeat split; vm_compute; reflexivity.
+Qed.
+
+Theorem gossip_current_after_empty_read_refuted :
+  exists s' ios s'' c,
+    forallb no_restart w_replay_ops = true /\
+    mrun (ms_init 1 n_vs) w_replay_ops = Ok (s', ios) /\ forallb ev_okb (st_ev (ms_k s')) = true /\
+    mstep s' MGRead = Ok (s'', c, IOGEmpty) /\
+    go_has_been_sent (gslot (m_g (ms_m s'')) ViewIDVoting) = true /\
+    triple (go_v (gslot (m_g (ms_m s'')) ViewIDVoting)) = triple (get_view (ms_k s'') ViewIDVoting) /\
+    go_v (gslot (m_g (ms_m s'')) ViewIDVoting) <> get_view (ms_k s'') ViewIDVoting /\
+    ~ view_le (get_view (ms_k s'') ViewIDVoting) (go_v (gslot (m_g (ms_m s'')) ViewIDVoting)).
+Proof.
+  eexists. eexists. eexists. eexists. split; [reflexivity|]. split; [vm_compute; reflexivity|].
+  split; [vm_compute; reflexivity|]. split; [vm_compute; reflexivity|].
+  split; [vm_compute; reflexivity|]. split; [vm_compute; reflexivity|]. split.
+  - intros E. apply (f_equal (fun v => List.length (v_phs v))) in E. vm_compute in E. discriminate.
+  - intros (Hphs&_). vm_compute in Hphs. specialize (Hphs _ (or_introl eq_refl)). destruct Hphs.
+Qed.
+
+(** the state machine: entered (1, 0) and answered with the voting view; the rejected replay changes
+    that view; nothing is offered, the version bar equals the kernel's version - and the kernel's
+    view holds a proposed header the state machine was never shown *)
+Definition w_sm_ops : list mop := [MEnter 1 0; MK (XOp (OpReplay w_hd w_cp))].
+
+Theorem sm_content_current_after_empty_read_refuted :
+  exists s' ios s'' c v0,
+    mrun (ms_init 1 n_vs) w_sm_ops = Ok (s', ios) /\ forallb ev_okb (st_ev (ms_k s')) = true /\
+    hd (IONone) ios = IOEnterView v0 /\
+    mstep s' MSMRead = Ok (s'', c, IOEmpty) /\
+    smm_last (sm_of s'') = v_ver (get_view (ms_k s'') ViewIDVoting) /\
+    triple v0 = triple (get_view (ms_k s'') ViewIDVoting) /\
+    flat_map sm_vrv ios = [] /\
+    ~ view_le (get_view (ms_k s'') ViewIDVoting) v0.
+Proof.
+  eexists. eexists. eexists. eexists. eexists. split; [vm_compute; reflexivity|].
+  split; [vm_compute; reflexivity|]. split; [vm_compute; reflexivity|]. split; [vm_compute; reflexivity|].
+  split; [vm_compute; reflexivity|]. split; [vm_compute; reflexivity|]. split; [vm_compute; reflexivity|].
+  intros (Hphs&_). vm_compute in Hphs. specialize (Hphs _ (or_introl eq_refl)). destruct Hphs.
+Qed.
+
+(** why restarts are excluded: after a restart the views are reloaded with version 1 *)
+Definition w_pv : vmsg := mk_vmsg 1 0 [1] [([7], [mk_ssig [0; 0] (SVote 0 0 1 0 [7])])].
+Definition w_restart_ops : list mop := [MGRead; MK (XOp (OpPrevote w_pv)); MGRead; MK XRestart; MGRead].
+
+Theorem gossip_versions_across_restart_refuted :
+  exists s' ios, mrun (ms_init 1 n_vs) w_restart_ops = Ok (s', ios) /\
+    map triple (nth_deliveries ViewIDVoting ios) = [(1, 0, 1); (1, 0, 2); (1, 0, 1)].
+Proof. eexists. eexists. split; vm_compute; reflexivity. Qed.
